@@ -6,7 +6,25 @@ def clause(v, rec):
     return v["c04"] + f":floor={v['floor']}:sev={rec['fick']['chk']['sev']}" if v["c04"] == "below-floor" else None
 
 
+def design(ctx):
+    """design model of the rule set: ModelVerdict >= Floor on every program of a concrete-vocabulary alphabet"""
+    import os
+    from .. import tlc
+    from ..tlc import MachineryError
+    t = open(os.path.join(tlc.SPEC, "AnalysisGen.cfg.tmpl")).read()
+    n = 4 if ctx.quick else 5
+    r = tlc.run("MCA_rules", t.replace("@POLL@", "FALSE").replace("@MAXLEN@", str(n)), workers=8, timeout=1800, heap="8g")
+    ctx.add_tlc(f"design:Analysis>=Floor:len{n}", r)
+    if not r["ok"]:
+        ctx.drift.append("design model of the rule set does not dominate the floor: " + r["error"][:300].replace("\n", " "))
+    rn = tlc.run("MCA_rules", t.replace("@POLL@", "TRUE").replace("@MAXLEN@", "4"), workers=8, timeout=900)
+    if rn["ok"]:
+        raise MachineryError("negative design model (BadCalls pollutes the de-duplication set) was not refuted")
+    ctx.notes.append("negative design model (polluted de-duplication set) refuted by TLC as expected")
+
+
 def run(ctx):
+    design(ctx)
     return vmfamily.run_family(
         ctx, "C04", clause,
         nontrivial=lambda v, r: v["floor"] > 0 and r["fick"]["chk"]["ok"],
